@@ -13,9 +13,9 @@ SPEC = dict(
     rule="case = (database, query, term cap, platform switch) evaluated with NLP off and on; non-trivial = the NLP-off answer is non-empty, distinct by "
          "(db, query, cap, platforms). Analysis cases: distinct query texts whose expansion added terms beyond the keywords.",
     floors=T({"subset-checked": 3000, "first4-checked": 3000, "len7-8": 300, "len9-10": 300, "len>10": 300, "nlp-added-candidates": 500,
-              "analysis-with-expansion": 5000, "distinct_nontrivial": 5000},
+              "analysis-with-expansion": 5000, "analysis-revisited": 3000, "distinct_nontrivial": 5000},
              {"subset-checked": 30000, "first4-checked": 30000, "len7-8": 3000, "len9-10": 3000, "len>10": 3000, "nlp-added-candidates": 5000,
-              "analysis-with-expansion": 50000, "distinct_nontrivial": 50000}),
+              "analysis-with-expansion": 50000, "analysis-revisited": 30000, "distinct_nontrivial": 50000}),
     assumptions=["'content words' = tokens of the reference tokenizer, counted with repeats",
                  "elements of Keywords that are the first synonym (GetSynonyms) of a word of the text are injected terms and exempt from the order check"],
 )
